@@ -111,10 +111,11 @@ type Op struct {
 
 // Crash pins one crash image (replay of a crash-arm violation).
 type Crash struct {
-	Pos   int         `json:"pos"`             // journal position: entries [0,Pos) survive
-	Cut   map[int]int `json:"cut,omitempty"`   // power loss: journal index -> bytes kept of that data entry
-	Power bool        `json:"power,omitempty"` // power loss (else process crash)
-	Pos2  int         `json:"pos2,omitempty"`  // second-level crash position inside the recovery (0 = none); stored +1
+	Pos       int         `json:"pos"`                 // journal position: entries [0,Pos) survive
+	Cut       map[int]int `json:"cut,omitempty"`       // power loss: journal index -> bytes kept of that data entry
+	Power     bool        `json:"power,omitempty"`     // power loss (else process crash)
+	Pos2      int         `json:"pos2,omitempty"`      // second-level crash position inside the recovery (0 = none); stored +1
+	ClockBack bool        `json:"clockback,omitempty"` // the wall clock was stepped back to the start of the operation in flight
 }
 
 // Damage pins one stored-byte fault.
